@@ -9,6 +9,7 @@ spellings. Differential oracle: the observation tuple of every node equals its s
 import itertools
 import json
 import zlib
+from collections import OrderedDict
 
 from .. import core, observe, sweep
 from ..engine import rewrite
@@ -184,6 +185,41 @@ def _direct_task(t):
     return acc
 
 
+def layout_cases(fam):
+    """(seed, respelling) pairs: every block layout (tables.block_layouts, plain and with every block
+    reversed) of three assignments that define every metric of the version, and of the same with
+    all but two optional metrics per block dropped."""
+    out = []
+    for pick in (-1, 0, 1):
+        full = T.full_assignment(fam, pick)
+        thin = OrderedDict((m, v) for m, v in full.items()
+                           if m in T.MANDATORY[fam] or any(m in b[:1] + b[-1:] for b in T.BLOCKS[fam]))
+        for asg in (full, thin):
+            seed = T.spell(fam, asg)
+            for rev in (False, True):
+                for order in T.block_layouts(fam, asg, rev):
+                    s = T.spell(fam, asg, order)
+                    if s != seed:
+                        out.append((seed, s))
+    return out
+
+
+def _layout_task(t):
+    fam, lo, hi = t
+    acc = sweep.new_acc()
+    for seed, s in layout_cases(fam)[lo:hi]:
+        acc["n"] += 1
+        acc["calls"] += 10
+        acc["cmp"] += 1
+        why = compare(fam, seed, s)
+        if why:
+            sweep.bad(acc, {"what": "%s(%r): %s" % (T.CLASSNAME[fam], s, why), "kind": "respell",
+                            "input": s, "seed": seed, "signature": {"kind": "respell"}})
+        else:
+            acc["nontrivial"] += 1
+    return acc
+
+
 def prepare(tier, res=None):
     """Seeds and their observations; the observations are computed in a fork so that the parent
     process (and hence every task forked from it) stays pristine."""
@@ -330,6 +366,13 @@ def run(ctx, res):
         for lo, hi in core.split_range(n, 12):
             btasks.append((fam, lo, hi))
     accs += core.task_map(_base_task, btasks)
+    ltasks = []
+    for fam in T.FAMILIES:
+        n = len(layout_cases(fam))
+        for lo, hi in core.split_range(n, 4 if fam != "4.0" else 12):
+            ltasks.append((fam, lo, hi))
+    laccs = core.task_map(_layout_task, ltasks)
+    accs += laccs
     tot = sweep.merge(accs)
     cov = res.coverage
     cov["states"] = tot["n"]
@@ -342,6 +385,7 @@ def run(ctx, res):
     cov["complete_groups"] = {"v2_base_orders_720_x_seeds": len([t for t in tasks if t[0] == "perm" and t[1] == "2"]),
                               "v3_base_orders_40320_x_seeds": len([t for t in tasks if t[0] == "perm" and t[1] != "2"]) // 16,
                               "v4_explicit_X_subsets": nd_v4}
+    cov["block_layouts"] = sum(a["n"] for a in laccs)
     cov["rule"] = ("states = distinct re-spellings (dedup on the string) of value-covering seed "
                    "vectors; transitions = rewrite edges; each state's observation tuple (scores, "
                    "severities, cleaned vector with/without prefix, RH vector, sub-vectors, ==, "
@@ -350,7 +394,8 @@ def run(ctx, res):
     cov["exhaustive"] = False
     cov["bound"] = ("permutation distance %d from %d seeds; all 720 orders of the v2 base fields, all "
                     "40,320 orders of the v3 base fields; all subsets of absent optional metrics "
-                    "written as ND/X for v2 (2^k) and v3 (2^k), v4: %s" % (
+                    "written as ND/X for v2 (2^k) and v3 (2^k), v4: %s; every permutation of the metric blocks "
+                    "(24 / 120 orders, plain and block-reversed) of six all-metrics assignments per family" % (
                         2 if ctx.thorough else 1, len(seeds),
                         "all 2^%d" % n_abs if ctx.thorough else "subsets of size <=2 and their complements"))
     cov["samples"] = ctx.rot(tot["samples"])[:6]
